@@ -298,24 +298,7 @@ func (m *model) apply(o Op) *expect {
 			e.class("reg:" + who + ":already-registered-newer")
 		default:
 			// refute with the newest channel tree, from the parent
-			r := &expReg{ParentV: m.ch[0].newest, ParentLocked: append([]int(nil), m.locked...)}
-			for _, j := range m.locked {
-				s := &m.ch[j]
-				switch {
-				case s.status == stWatched:
-					r.Subs = append(r.Subs, expSub{J: j, V: s.newest, Known: true})
-					e.class("refute:with-watched-sub")
-				case s.status == stStopped && s.archived:
-					r.Subs = append(r.Subs, expSub{J: j, V: s.archivedV, Known: true})
-					e.class("refute:with-archived-sub")
-				case s.status == stStopped:
-					r.Subs = append(r.Subs, expSub{J: j})
-					e.class("unspecified:locked-sub-deregistered-while-unlocked")
-				default:
-					r.Subs = append(r.Subs, expSub{J: j})
-					e.class("unspecified:locked-sub-never-watched")
-				}
-			}
+			r := m.tree(m.ch[0].newest, m.locked, func(j int) uint64 { return m.ch[j].newest }, e)
 			e.reg = r
 			e.refute = true
 			e.class("reg:" + who + ":refute")
@@ -328,26 +311,66 @@ func (m *model) apply(o Op) *expect {
 			if len(m.locked) == 2 {
 				e.class("refute:two-locked")
 			}
-			// what the watcher registered itself
-			m.ch[0].selfReg = m.ch[0].newest
-			for _, s := range r.Subs {
-				if s.Known && m.ch[s.J].status == stWatched {
-					m.ch[s.J].selfReg = s.V
-				}
-			}
+			m.noteSelfReg(r)
 		}
-		// relayed at most once each, strictly increasing; a version above
-		// everything relayed so far is relayed (watcher.Watcher: "the
-		// corresponding adjudicator event will be relayed")
-		if !c.relayed || o.V > c.relayedMax {
+		if m.relay(o.C, o.V) {
 			e.relay, e.relayC = true, o.C
-			c.relayed, c.relayedMax = true, o.V
 			e.class("reg:relayed")
 		} else {
 			e.class("reg:not-relayed-again")
 		}
 	}
 	return e
+}
+
+// tree builds the channel tree that a refutation must hand to the adjudicator
+// when the newest parent transaction has version parentV and locks `locked`:
+// per locked entry (in order) the newest published transaction of a watched
+// sub-channel (version newestOf(j)), the archived last transaction of a
+// de-registered one, or nothing the text specifies.
+func (m *model) tree(parentV uint64, locked []int, newestOf func(j int) uint64, e *expect) *expReg {
+	r := &expReg{ParentV: parentV, ParentLocked: append([]int(nil), locked...)}
+	for _, j := range locked {
+		s := &m.ch[j]
+		switch {
+		case s.status == stWatched:
+			r.Subs = append(r.Subs, expSub{J: j, V: newestOf(j), Known: true})
+			e.class("refute:with-watched-sub")
+		case s.status == stStopped && s.archived:
+			r.Subs = append(r.Subs, expSub{J: j, V: s.archivedV, Known: true})
+			e.class("refute:with-archived-sub")
+		case s.status == stStopped:
+			r.Subs = append(r.Subs, expSub{J: j})
+			e.class("unspecified:locked-sub-deregistered-while-unlocked")
+		default:
+			r.Subs = append(r.Subs, expSub{J: j})
+			e.class("unspecified:locked-sub-never-watched")
+		}
+	}
+	return r
+}
+
+// noteSelfReg records what the watcher registered itself with the call r.
+func (m *model) noteSelfReg(r *expReg) {
+	m.ch[0].selfReg = r.ParentV
+	for _, s := range r.Subs {
+		if s.Known && m.ch[s.J].status == stWatched {
+			m.ch[s.J].selfReg = s.V
+		}
+	}
+}
+
+// relay decides whether a registered event (c, v) reaches the client: at most
+// once each, strictly increasing; a version above everything relayed so far is
+// relayed (watcher.Watcher: "the corresponding adjudicator event will be
+// relayed").
+func (m *model) relay(c int, v uint64) bool {
+	x := &m.ch[c]
+	if !x.relayed || v > x.relayedMax {
+		x.relayed, x.relayedMax = true, v
+		return true
+	}
+	return false
 }
 
 // closing returns the operations that de-register everything still watched.
